@@ -107,8 +107,15 @@ def evaluate_rt(rep, so, rc, out, err, params, info):
         t = l.split()
         if not t:
             continue
-        if t[0] in ("A", "B"):
-            f[t[0]] = dict(x.split("=", 1) for x in t[1:] if "=" in x)
+        if t[0] == "B":
+            f["B"] = dict(x.split("=", 1) for x in t[1:] if "=" in x)
+        elif t[0] == "A":
+            d = dict(x.split("=", 1) for x in t[1:] if "=" in x)
+            f.setdefault("A_families", []).append(d)
+            if "A" not in f:
+                f["A"] = dict(d)
+            else:
+                f["A"]["result_mismatches"] = str(int(f["A"]["result_mismatches"]) + int(d["result_mismatches"]))
         elif t[0] == "FAULT":
             d = dict(x.split("=", 1) for x in t[2:] if "=" in x)
             if t[1] == "write-to-library-static":
@@ -118,7 +125,9 @@ def evaluate_rt(rep, so, rc, out, err, params, info):
                 name = tgt[2] if tgt else "?"
                 res.append(("write into library static `%s` (+%d) by `%s` while %s threads x %s operations ran on private objects"
                             % (name, off - tgt[0] if tgt else 0, pc[2] if pc else "?", params["nth"], params["nops"]),
-                            dict(params, kind="runtime", fault=l, static=name, writer=pc[2] if pc else "?"),
+                            dict(params, kind="runtime", fault=l, static=name, writer=pc[2] if pc else "?",
+                                 families_completed_before_the_fault=[x.split("family=")[1].split()[0] for x in out.split("\n") if x.startswith("A family=")],
+                                 family_order=["host", "base", "sse", "avx", "avx2", "avx512", "avx512g2", "sse_ni", "avx512_ni"]),
                             {"kind": "write_to_static", "static": re.sub(r"\.\d+$", "", name)}, False))
             else:
                 pc = code_at(syms, int(d["pc"], 16)) if d.get("pc") else None
@@ -179,12 +188,15 @@ def run(tier, replay=None):
     rc, out, err = run_rt(exe, entries, params["nth"], params["nops"], params["rounds"], params["seed"])
     found, f = evaluate_rt(rep, so, rc, out, err, params, info)
     nops_kinds = 10
-    for t in range(params["nth"]):
-        rep.case(("A", t, params["seed"]), True)
+    for fam in range(9):
+        for t in range(params["nth"]):
+            rep.case(("A", fam, t, params["seed"]), True)
     for r_ in range(params["rounds"]):
         rep.case(("B", r_, params["seed"]), True)
-    rep.cov["traces_validated_against_impl"] = params["nth"] * params["nops"] + params["rounds"] * 16 * nops_kinds
-    rep.notes["runtime"] = {"phase_A": f.get("A"), "phase_B": f.get("B"), "entries_given": len(entries)}
+    rep.cov["traces_validated_against_impl"] = 9 * params["nth"] * params["nops"] + params["rounds"] * 16 * nops_kinds
+    rep.notes["runtime"] = {"phase_A_per_family": f.get("A_families"), "phase_B": f.get("B"), "entries_given": len(entries)}
+    if f.get("A_families") is not None and len(f["A_families"]) < 9 and not found:
+        found.append(("run-time half covered only %d of 9 implementation families" % len(f["A_families"]), dict(params, kind="runtime"), {"kind": "harness"}, True))
     if f.get("A"):
         rep.sample({"phase_A": f["A"], "phase_B": f.get("B")})
     real = [x for x in found if not x[3]]
@@ -210,7 +222,7 @@ def run(tier, replay=None):
     for what, rp, sig, no_input in soft[:3]:
         if not rep.violations:
             rep.violation(what, rp, sig, no_input=True)
-    rep.cov["rule"] = ("static half: one obligation over the whole regenerated inventory (all %s objects). run-time half: evaluations = threads of phase A (each = M mixed operations: "
+    rep.cov["rule"] = ("static half: one obligation over the whole regenerated inventory (all %s objects). run-time half: evaluations = threads of phase A x 9 implementation families selected through the real dispatchers by virtual CPUID (each = M mixed operations: "
                        "sha1/sha256/sha512/md5/sm3 managers with 1-5 contexts and split submissions, mh_sha1/mh_sha256/mh_sha1_murmur3, key expansion + CBC 128/192/256 round trip, "
                        "GCM one-shot/streaming/nt/streaming-nt 128/256 round trip, XTS 128/256 plain and expanded-key round trips, rolling hash) + race rounds of phase B "
                        "(16 threads x 10 operation kinds, all bindings re-armed)" % info.get("n_objects"))
